@@ -53,7 +53,7 @@ def follows_for(gx, method, nt_name, prod) -> List[tuple]:
     return reps
 
 
-BUDGET = {"quick": 12000, "thorough": 150000}
+BUDGET = {"quick": 8000, "thorough": 150000}
 _TIER = "quick"
 
 
@@ -71,7 +71,7 @@ def run_case(item) -> dict:
     for p in nt.prods[pidx:pidx + 1]:
         rec = dict(label=p.label, note=p.note, runs=0, ok=0, fails=[], term=[], coord=[], scope=[], cost=[], notes=[], samples=[])
         fols = {id(fs): follows_for(gx, method, nt_name, p) for fs in [p]}[id(p)]
-        per = max(300, BUDGET[_TIER] // max(1, len(p.flat) * len(fols)))
+        per = max(600 if _TIER == "quick" else 6000, BUDGET[_TIER] // max(1, len(p.flat) * len(fols)))
         for flat, shape in p.flat:
             for fol in fols:
                 args, kwargs = fac(gx, p) if fac else ((), {})
@@ -88,6 +88,11 @@ def run_case(item) -> dict:
                     if inv and inv(oc.run, list(fol)):
                         continue
                     text = oc.run.text()
+                    nondefault = any(isinstance(x, GXM.Mark) and x.variant for x in GXM._walk(oc.run.root))
+                    if nondefault and oc.kind in ("parse-error", "consumption", "stub-mismatch", "refuted"):
+                        # a non-default result shape of a callee may make the form semantically invalid: such runs count
+                        # for run-time-error freedom and (when they complete) for the term obligations, not for acceptance
+                        continue
                     if oc.kind == "ok":
                         rec["ok"] += 1
                         if len(rec["samples"]) < 2:
@@ -361,10 +366,12 @@ def to_obligations(gx, recs: List[dict], families: List[str], prefix: str) -> co
             undec = [n for n in p["notes"] if "budget" in n or "spec build failed" in n or "RecursionError" in n]
             sample = (p["samples"] or [""])[0]
             for fam in families:
+                if p["note"] == "superset" and fam != "rte":
+                    continue  # forms beyond valid C: only run-time-error freedom is claimed for them
                 if fam == "accept":
                     bad = [f for f in p["fails"] if f[0] in ("parse-error", "consumption", "stub-mismatch", "refuted")]
                 elif fam == "rte":
-                    bad = [f for f in p["fails"] if f[0] == "exception"]
+                    bad = [f for f in p["fails"] if f[0] in ("exception", "bad-error-location")]
                 elif fam == "term":
                     bad = p["term"]
                 elif fam == "coord":
